@@ -306,9 +306,13 @@ class Module:
         rw = _DoRewriter()
         self.tree = rw.visit(tree)
         from .normalise import inline_single_use_helpers, swap_negated_returns, filtered_loops_to_if, guard_continue_to_if, substitute_stable_locals
+        from .normalise import helpers_to_closures
+        self.nested_helpers = helpers_to_closures(self.tree)
         self.inlined_helpers = inline_single_use_helpers(self.tree)
         from .normalise import inline_helpers_v2
         self.inlined_helpers += inline_helpers_v2(self.tree)
+        from .normalise import eliminate_copies
+        eliminate_copies(self.tree)
         filtered_loops_to_if(self.tree)
         guard_continue_to_if(self.tree)
         substitute_stable_locals(self.tree)
@@ -754,6 +758,8 @@ class Scope:
                 p = base + '.' + oc.mangle(expr.attr)
             return self._alias(p, f)
         if isinstance(expr, ast.Name):
+            if depth == 0 and isinstance(expr.ctx, ast.Store):
+                return None     # binding a local (perhaps an alias of a path) is not a store to the path
             return self._canon_name(expr.id, f, depth)
         return None
 
